@@ -64,6 +64,36 @@ Proof.
      | phi_bind; [apply (phi_write_all _ _ L) | phi_leaf] ]).
 Qed.
 
+Lemma phi_msg_part mb body : forall part, Phi (msg_part w mb body part).
+Proof.
+  fix IH 1. intros part. destruct part; cbn [msg_part]; try phi_leaf.
+  - (* NMsgPlural *)
+    destruct (find_plural_value _ _) as [pv|]; [|phi_leaf].
+    phi_bind; [apply (phi_eval _ _ L w Hw)|].
+    destruct x; try phi_leaf.
+    match goal with
+    | |- Phi (match nth_error ?rs ?k with _ => _ end) =>
+        assert (Hruns : forall j m, nth_error rs j = Some (Some m) -> Phi m);
+        [ | destruct (nth_error rs k) as [[m|]|] eqn:Hn; [eapply Hruns; exact Hn | phi_leaf | phi_leaf] ]
+    end.
+    induction cases as [|c r IHr]; intros j m Hj.
+    + destruct j; discriminate.
+    + destruct j as [|j]; cbn [map nth_error] in Hj.
+      * destruct c; try discriminate. inversion Hj; subst m. clear Hj.
+        match goal with
+        | |- Phi ((fix go (l : list node) {struct l} : M unit := _) ?l) => induction l as [|x0 r0 IHr0]
+        end; [phi_leaf|]. phi_bind; [apply IH | exact IHr0].
+      * eapply IHr. exact Hj.
+  - (* NIdent *)
+    destruct (msg_placeholder _ _) as [ph|]; [|phi_leaf]. phi_bind; [apply Hw | phi_leaf].
+Qed.
+
+Lemma phi_msg_parts mb body parts : Phi (msg_parts w mb body parts).
+Proof.
+  induction parts as [|x r IH]; cbn [msg_parts]; [phi_leaf|].
+  phi_bind; [apply phi_msg_part | exact IH].
+Qed.
+
 Lemma phi_call_func_x ar f args : (forall vs, pure_ok (f vs)) -> Phi (call_func_x w ar f args).
 Proof.
   intros Hf. unfold call_func_x. destruct (negb _); [phi_leaf|].
@@ -82,6 +112,9 @@ Proof.
   - (* NPrint *)
     destruct (print_uses_installed cf ux dirs); [|apply (phi_walk_body cf _ _ L PS w Hw)].
     phi_bind; [phi_leaf|]. apply phi_print_x.
+  - (* NMsg *)
+    destruct (msg_translation cf id) as [[mb parts]|]; [|apply (phi_walk_body cf _ _ L PS w Hw)].
+    phi_bind; [phi_leaf|]. phi_bind; [apply phi_msg_parts | phi_leaf].
 Qed.
 End BodyX.
 
@@ -170,24 +203,30 @@ Qed.
 Lemma existsb_none {A} (l : list A) : existsb (fun _ => false) l = false.
 Proof. induction l as [|a r IH]; [reflexivity | exact IH]. Qed.
 
-Lemma walk_body_x_no_ext cf w n : walk_body_x cf no_ext w n = walk_body cf w n.
+Lemma walk_body_x_no_ext cf w n : c_msgs cf = None -> walk_body_x cf no_ext w n = walk_body cf w n.
 Proof.
-  destruct n; try reflexivity; cbn [walk_body_x].
+  intros Hm. destruct n; try reflexivity; cbn [walk_body_x].
   - destruct (_ || _ || _); reflexivity.
   - unfold print_uses_installed, is_installed_dir. cbn [no_ext ux_dir]. rewrite existsb_none. reflexivity.
+  - unfold msg_translation. rewrite Hm. destruct (id =? 0); reflexivity.
 Qed.
 
-(* with nothing installed the extended walker is the walker of Model/Interp.v, on every node, fuel and state *)
-Theorem walk_x_no_ext cf : forall fuel n st, walk_x cf no_ext fuel n st = walk cf fuel n st.
+(* with nothing installed and no message bundle the extended walker is the walker of Model/Interp.v, on every node,
+   fuel and state *)
+Theorem walk_x_no_ext cf : c_msgs cf = None -> forall fuel n st, walk_x cf no_ext fuel n st = walk cf fuel n st.
 Proof.
-  induction fuel as [|f IH]; intros n st; [reflexivity|].
-  cbn [walk_x walk]. rewrite walk_body_x_no_ext.
+  intros Hm. induction fuel as [|f IH]; intros n st; [reflexivity|].
+  cbn [walk_x walk]. rewrite (walk_body_x_no_ext cf _ n Hm).
   apply (walk_body_same cf (walk_x cf no_ext f) (walk cf f)). intros n' st'. apply IH.
 Qed.
 
 Theorem render_x_no_ext cf fuel name id data cl bl fid :
+  c_msgs cf = None ->
   render_x cf no_ext fuel name id data cl bl fid = render cf fuel name id data cl bl fid.
-Proof. unfold render_x, render. destruct (find_template _ name) as [t|]; [|reflexivity]. rewrite walk_x_no_ext. reflexivity. Qed.
+Proof.
+  intros Hm. unfold render_x, render. destruct (find_template _ name) as [t|]; [|reflexivity].
+  rewrite (walk_x_no_ext cf Hm). reflexivity.
+Qed.
 
 (* ------------------------------------------------------------------ *)
 (* (C) C08 with installed functions and directives *)
@@ -303,3 +342,32 @@ Proof. vm_compute. reflexivity. Qed.
 Lemma ux_witness_base :
   is_ok (rr_outcome (render_in ux_world ux_shared wit_rq)) = false.
 Proof. vm_compute. reflexivity. Qed.
+
+(* a translated plural message: {msg}{plural $x}{case 1}one{default}{$x} items{/plural}{/msg} through a bundle with two
+   forms ("eins" / "{N_2} Stueck"), PluralCase(1) = 0, otherwise 1 *)
+Definition tr_n1 := Eval vm_compute in b "N_1".
+Definition tr_n2 := Eval vm_compute in b "N_2".
+Definition tr_msg : node :=
+  NMsg 4 77 [] [] [NMsgPlural 5 tr_n1 (NDataRef 6 wit_x [])
+                     [NMsgPluralCase 7 1 [NRawText 8 (b "one")]]
+                     [NMsgPlaceholder 9 tr_n2 (NPrint 10 (NDataRef 11 wit_x []) []); NRawText 12 (b " items")]].
+Definition tr_bundle : msg_bundle :=
+  {| mb_msgs := [(77, [NMsgPlural 0 tr_n1 (NNull 0)
+                         [NMsgPluralCase 0 0 [NRawText 0 (b "eins")];
+                          NMsgPluralCase 0 0 [NIdent 0 tr_n2; NRawText 0 (b " Stueck")]] []])];
+     mb_plural := [(1%Z, 0)]; mb_plural_default := 1 |}.
+Definition tr_cfg (msgs : option msg_bundle) : cfg :=
+  {| c_reg := {| r_templates := [{| t_name := wit_name; t_node := NTemplate 0 wit_name (NList 0 [tr_msg]) 0 false;
+                                    t_ns_name := b "ns"; t_ns_autoescape := 0; t_params := [(wit_x, false)]; t_file := b "f.soy" |}];
+                 r_sources := [(wit_name, b "{namespace ns}{template .t}{msg desc=""}{plural $x}{case 1}one{default}{$x} items{/plural}{/msg}{/template}")];
+                 r_files := [(wit_name, b "f.soy")] |};
+     c_ij := None; c_oblig := []; c_msgs := msgs |}.
+Definition tr_run msgs (x : Z) cl := render_x (tr_cfg msgs) no_ext 10 wit_name 7 [(wit_x, VInt x)] cl None 100.
+
+Lemma tr_witness :
+  (rr_outcome (tr_run (Some tr_bundle) 3 None), rr_writes (tr_run (Some tr_bundle) 3 None)) = (Ok tt, [b "3"; b " Stueck"]) /\
+  (rr_outcome (tr_run (Some tr_bundle) 1 None), rr_writes (tr_run (Some tr_bundle) 1 None)) = (Ok tt, [b "eins"]) /\
+  (rr_outcome (tr_run None 3 None), rr_writes (tr_run None 3 None)) = (Ok tt, [b "3"; b " items"]) /\
+  (* the text after the last placeholder of the selected form, refused: the render returns the error *)
+  (rr_outcome (tr_run (Some tr_bundle) 3 (Some 1%nat)), rr_writes (tr_run (Some tr_bundle) 3 (Some 1%nat))) = (Err e_write, [b "3"]).
+Proof. vm_compute. repeat split; reflexivity. Qed.
